@@ -88,12 +88,27 @@ def program(entry, wrapper, k, bound):
     elif entry == "curried":
         src = f"f = n => m => {base(W('f(n + 1)(m)'))}\noutput r = f(0)(0)"
         exp, per = L, 2
+    elif entry == "anonymous-self-application":
+        lam = f"((self, n) => {base(W('self(self, n + 1)'))})"
+        src = f"output r = {lam}({lam}, 0)"
+        exp, per = L, 1
+    elif entry == "anonymous-record-method":
+        src = f"step = {{go: (self, n) => {base(W('self.go(self, n + 1)'))}}}\noutput r = step.go(step, 0)"
+        exp, per = L, 1
+    elif entry == "anonymous-list-element":
+        src = f"fs = [(fs, n) => {base(W('fs[0](fs, n + 1)'))}]\noutput r = fs[0](fs, 0)"
+        exp, per = L, 1
+    elif entry == "anonymous-callback-cycle":
+        src = f"step = {{go: (self, n) => {base(W('([n + 1] via (m => self.go(self, m)))[0]'))}}}\noutput r = step.go(step, 0)"
+        exp, per = L, 2
     else:
         raise ValueError(entry)
     return src, exp, per
 
 
-DIRECT = ["self", "mutual2", "mutual3", "via-callback", "into", "where-callback", "do-block-body", "curried"]
+DIRECT = ["self", "mutual2", "mutual3", "via-callback", "into", "where-callback", "do-block-body", "curried",
+          # cycles on which no function has a name (functions are named by a direct `name = lambda` binding only)
+          "anonymous-self-application", "anonymous-record-method", "anonymous-list-element", "anonymous-callback-cycle"]
 CALLBACK = ["map-callback", "filter-callback", "reduce-callback", "every-callback", "group_by-callback"]
 
 
